@@ -20,7 +20,7 @@ def _compile_job(job):
     out = []
     for st in settings:
         r = replay.compile_recipe(prog, st["v"], scratch_slots=st.get("ss"), frame_pointers=st.get("fp"),
-                                  assemble_constants=st.get("ac", False))
+                                  assemble_constants=st.get("ac", False), mode=st.get("mode"))
         r["st"] = st
         out.append(r)
     return out
@@ -36,8 +36,9 @@ def compile_all(jobs):
 
 
 def settings_tag(st):
-    return "v%d%s%s%s" % (st["v"], "" if st.get("ss") is None else (",ss=%d" % st["ss"]),
-                          "" if st.get("fp") is None else (",fp=%d" % st["fp"]), ",ac" if st.get("ac") else "")
+    return "v%d%s%s%s%s" % (st["v"], "" if st.get("ss") is None else (",ss=%d" % st["ss"]),
+                            "" if st.get("fp") is None else (",fp=%d" % st["fp"]), ",ac" if st.get("ac") else "",
+                            "" if st.get("mode") is None else ("," + st["mode"]))
 
 
 # ---------------------------------------------------------------------------------------------
